@@ -204,8 +204,9 @@ func (v *JV) rename(k, k2 string) {
 	}
 }
 
-var signNames = []string{"srv", "hs1", "example.org", "a.b:8448", "other", "", "<&>", "é.org", "[::1]:80", "x y"}
-var signKids = []string{"ed25519:1", "ed25519:a_b", "ed25519:auto", "k", "", "ed25519:<", "curve25519:1"}
+var signNames = []string{"srv", "hs1", "example.org", "a.b:8448", "other", "", "<&>", "é.org", "[::1]:80", "x y", "SRV", "Example.org", "42", ":8448", "a.b", "-1", "a*b", "#x", "@u:srv"}
+// (key IDs are opaque strings compared byte for byte: spellings that differ only in letter case are different keys)
+var signKids = []string{"ed25519:1", "ed25519:a_b", "ed25519:auto", "k", "", "ed25519:<", "curve25519:1", "ED25519:auto", "Ed25519:1", "ed25519:AUTO", "ed25519:ſ"}
 
 func (r *Rng) randBytes(n int) []byte {
 	b := make([]byte, n)
